@@ -37,6 +37,7 @@ def exp_api(st):
         if not rec.get("live"):
             continue
         out[h] = {"names": sorted(_seq(rec.get("names"))), "children": sorted(_seq(rec.get("children"))),
+                  "ad": bool(rec.get("ad", True)), "data_ad": {e["n"]: bool(e.get("ad", True)) for e in _seq(rec.get("vals"))},
                   "vals": {e["n"]: _seq(e["v"]) for e in _seq(rec.get("vals"))},
                   "pgs": sorted((p["name"], p["ptype"], tuple(_seq(p["props"]))) for p in _seq(rec.get("pgs")))}
     return out
@@ -53,7 +54,7 @@ def exp_attrs(st):
     for r in _seq(st["s"]["attrs"]):
         keys = tuple(sorted((k["n"], k["d"]) for k in _seq(r["keys"])))
         recs.append((r["kind"], r["id"] if r["kind"] != "empty" else 0, r["name"] if r["kind"] in ("data", "pg") else "",
-                     keys, tuple(_seq(r["props"])), r["ptype"]))
+                     keys, tuple(_seq(r["props"])), r["ptype"], bool(r.get("ad", True)) if r["kind"] in ("hole", "data") else True))
     return Counter(recs)
 
 
@@ -74,7 +75,8 @@ def got_api(scene):
                 vals[name] = v
         pgs = rec["pgs"]
         pgs = pgs if isinstance(pgs, str) else sorted((n, p["type"], tuple(p["props"])) for n, p in pgs.items())
-        out[h] = {"names": rec["names"], "vals": vals, "pgs": pgs, "children": rec["children"]}
+        out[h] = {"names": rec["names"], "vals": vals, "pgs": pgs, "children": rec["children"],
+                  "ad": rec["ad"], "data_ad": rec["data_ad"]}
     return out
 
 
@@ -97,17 +99,17 @@ def got_attrs(scene, raw):
     recs = []
     for r in raw["attrs"] or []:
         if "ID" not in r:
-            recs.append(("empty", 0, "", (), (), ""))
+            recs.append(("empty", 0, "", (), (), "", True))
             continue
         uid = r["ID"]
         if "Object Type ID" in r:
             keys = tuple(sorted((k[len("Property:"):], scene.data_sid.get(v, v)) for k, v in r.items() if k.startswith("Property:")))
-            recs.append(("hole", scene.slot_of(uid), "", keys, (), ""))
+            recs.append(("hole", scene.slot_of(uid), "", keys, (), "", bool(r.get("Allow delete", True))))
         elif "Type ID" in r:
-            recs.append(("data", scene.data_sid.get(uid, uid), r.get("Name"), (), (), ""))
+            recs.append(("data", scene.data_sid.get(uid, uid), r.get("Name"), (), (), "", bool(r.get("Allow delete", True))))
         else:
             recs.append(("pg", scene.pg_sid.get(uid, uid), r.get("Group Name"), (),
-                         tuple(scene.data_sid.get(p, p) for p in r.get("Properties") or []), r.get("Property Group Type", "")))
+                         tuple(scene.data_sid.get(p, p) for p in r.get("Properties") or []), r.get("Property Group Type", ""), True))
     return Counter(recs)
 
 
@@ -161,6 +163,11 @@ def compare_state(scene, st, after_reopen=False, findings=None):
         for n, v in want[h]["vals"].items():
             if got[h]["vals"].get(n) != v:
                 raise Mismatch("api-readback", f"hole {h} data {n}: read {got[h]['vals'].get(n)} expected {v}")
+        if want[h]["ad"] != got[h]["ad"]:
+            raise Mismatch("api-allow-delete", f"hole {h}: allow_delete {got[h]['ad']} expected {want[h]['ad']}")
+        for n, flag in got[h]["data_ad"].items():
+            if want[h]["data_ad"].get(n, flag) != flag:
+                raise Mismatch("api-allow-delete", f"hole {h} data {n}: allow_delete {flag} expected {want[h]['data_ad'][n]}")
         if want[h]["children"] != got[h]["children"]:
             raise Mismatch("api-children", f"hole {h}: data in hole.children {got[h]['children']} expected {want[h]['children']}")
         if want[h]["pgs"] != got[h]["pgs"]:
@@ -290,7 +297,7 @@ def replay_path(item):
     done = 0
     scene = None
     try:
-        scene = Scene(work, version=item["version"])
+        scene = Scene(work, version=item["version"], kind=item.get("kind", "float"), plain_child=bool(item.get("plain_child")))
         steps = list(item["steps"]) + ([item["tail"]] if item.get("tail") else [])
         for step in steps:
             edge, st = step["edge"], step["state"]
@@ -315,7 +322,8 @@ def replay_path(item):
             recheck_copies(scene)
     except Mismatch as m:
         viol.append({"signature": m.signature, "summary": f"step {done}: {m.summary}",
-                     "case": {"version": item["version"], "steps": item["steps"][:done], "tail": None}})
+                     "case": {"version": item["version"], "kind": item.get("kind", "float"),
+                              "plain_child": bool(item.get("plain_child")), "steps": item["steps"][:done], "tail": None}})
     finally:
         if scene is not None:
             scene.close()
